@@ -295,3 +295,42 @@ def run(repo: Repo, rep: Report) -> None:
                    "sampled unconditionally" if bad is None else
                    "the %s clause is sampled only if `%s` - i.e. only if it contains an aggregate call: `GROUP BY ?d %s` with ?d not projected refers to a variable that no longer exists after grouping" % (
                        clause.upper(), norm(bad), "HAVING (?d != <x>)" if clause == "having" else "ORDER BY ?d"), node=bad or n)
+
+
+_run_base = run
+
+
+def run(repo: Repo, rep: Report) -> None:  # noqa: F811
+    _run_base(repo, rep)
+    ag = repo.mod("rdflib.plugins.sparql.aggregates")
+    # ------------------------------------------------------------------ (i)
+    rep.rule("C08.i-extremum-is-a-member-of-the-group",
+             "MIN / MAX return one of the group's terms unchanged: Extremum.set_value binds self.value itself (SPARQL orders IRIs, blank nodes and literals; the extremum of a group "
+             "of IRIs is an IRI). Wrapping the running value in Literal(...) unconditionally turns an IRI or blank node into a plain string literal", floor=1)
+    sv = ag.func("Extremum.set_value")
+    for st in own_nodes(sv):
+        if isinstance(st, ast.Assign) and isinstance(st.targets[0], ast.Subscript) and norm(st.targets[0].value) == "bindings":
+            v = st.value
+            uncond_wrap = isinstance(v, ast.Call) and norm(v.func) == "Literal" and v.args and norm(v.args[0]) == "self.value"
+            rep.ob("C08.i-extremum-is-a-member-of-the-group", ag, "Extremum.set_value", st, not uncond_wrap,
+                   "the term itself (a Literal is only made of a non-term value)" if not uncond_wrap else
+                   "MIN(?x) / MAX(?x) over IRIs or blank nodes answer with Literal('<the IRI text>'): a term that is not in the group", node=st)
+
+    # ------------------------------------------------------------------ (j)
+    rep.rule("C08.j-numeric-accumulators-agree-on-non-numbers",
+             "SUM and AVG (Sum.update, Average.update) treat a term that is not a number the same way: the conversion numeric(value) comes before any use of value.datatype "
+             "(an IRI or blank node has no datatype attribute) and its SPARQLTypeError is handled in update(); otherwise one non-numeric member makes the whole query raise", floor=4)
+    for cname in ("Sum", "Average"):
+        f = ag.func(cname + ".update")
+        handlers = {norm(h.type) for t in own_nodes(f) if isinstance(t, ast.Try) for h in t.handlers if h.type is not None}
+        ok = any("SPARQLTypeError" in h for h in handlers)
+        rep.ob("C08.j-numeric-accumulators-agree-on-non-numbers", ag, cname + ".update", "handles SPARQLTypeError of numeric()", ok,
+               "" if ok else "%s.update lets SPARQLTypeError escape: `SELECT (SUM(?v) AS ?s)` over a group with one string or IRI raises instead of answering (AVG on the same group answers)" % cname, node=f)
+        num = [c for c in own_nodes(f) if isinstance(c, ast.Call) and norm(c.func) == "numeric"]
+        dts = [a for a in own_nodes(f) if isinstance(a, ast.Attribute) and a.attr == "datatype" and isinstance(a.value, ast.Name) and a.value.id != "self"]
+        if not num:
+            raise AnalysisError("%s.update: numeric() call not found" % cname)
+        first_num = min(c.lineno for c in num)
+        early = [a for a in dts if a.lineno < first_num]
+        rep.ob("C08.j-numeric-accumulators-agree-on-non-numbers", ag, cname + ".update", "numeric(value) precedes value.datatype", not early,
+               "" if not early else "%s is read before numeric() has rejected non-literals: an IRI in the group raises AttributeError" % norm(early[0]), node=early[0] if early else num[0])
